@@ -371,6 +371,7 @@ class World(object):
             'assume': NativeFunc('assume', lambda ex, a, k: ex.assume(ex.truth(a[0]))),
             'require': NativeFunc('require', _require),
             'same_entries': NativeFunc('same_entries', _same_entries),
+            'call_arg': NativeFunc('call_arg', _call_arg),
         })
         return mods
 
@@ -478,6 +479,14 @@ def _require(ex, a, k):
             caller = fr.func.qualname
             break
     ex.oblige('%s/call-pre:%s' % (caller, a[1]), ex.truth(a[0]), detail='interface precondition ' + str(a[1]))
+
+
+def _call_arg(ex, a, k):
+    """argument passed at the last call of a callee replaced by contract a[0]"""
+    env = ex.ghost.get('call_args', {}).get(a[0])
+    if env is None or a[1] not in env:
+        raise Unsupported('call_arg: %s was not called with %s on this path' % (a[0], a[1]))
+    return env[a[1]]
 
 
 def _same_entries(ex, a, k):
